@@ -49,6 +49,11 @@ def relayout(array, layout):
     """Same values, different memory layout: C-contiguous, Fortran-ordered, a strided view, or a view at an offset
     inside a larger buffer (all are ordinary numpy arrays a caller may pass)."""
     import numpy
+    if layout in ("int32", "int16"):
+        # narrower integer types a caller may hold a graph in (e.g. loaded from a file); int16 only when indices fit
+        if layout == "int16" and array.size and int(array.max()) > 32767:
+            layout = "int32"
+        return numpy.ascontiguousarray(array.astype(layout))
     if layout in (None, "C"):
         return numpy.ascontiguousarray(array)
     if layout == "F":
@@ -91,9 +96,11 @@ def table_rows(perm_indices):
     return None if perm_indices is None else [PERMS[i] for i in perm_indices]
 
 
-def bits_of(text):
+def bits_of(text, dtype=None):
     import numpy
-    return pooled(numpy.array([int(c) for c in text], dtype=int), "bits")
+    if dtype == "list":
+        return [int(c) for c in text]
+    return pooled(numpy.array([int(c) for c in text], dtype=dtype or int), "bits")
 
 
 def rows_of_accessor(acc, k):
